@@ -178,6 +178,9 @@ func (e *Engine) schedule() {
 			if allDaemon && ts.all[0].done {
 				return
 			}
+			if e.fireTimer() {
+				continue
+			}
 			sort.Strings(sites)
 			e.reportEvent("deadlock", "deadlock: "+strings.Join(sites, " | "), "all unfinished threads are blocked")
 			panic(&abortSignal{kind: abortViolation})
@@ -544,7 +547,7 @@ func (e *Engine) blockOnChan(ch *Chan) bool {
 	if e.th == nil || !e.job.Threads {
 		return false
 	}
-	e.blockUntilDaemon("chan receive", func() bool { return len(ch.Buf) > 0 || ch.Closed || (ch.Ticker && e.ticks > 0) })
+	e.blockUntilDaemon("chan receive", func() bool { return len(ch.Buf) > 0 || ch.Closed || (e.tickReady(ch)) })
 	return true
 }
 
@@ -570,7 +573,7 @@ func (e *Engine) blockOnSelect(chans []*Chan) bool {
 	}
 	e.blockUntilDaemon("select", func() bool {
 		for _, c := range chans {
-			if c != nil && (len(c.Buf) > 0 || c.Closed || (c.Ticker && e.ticks > 0)) {
+			if c != nil && (len(c.Buf) > 0 || c.Closed || (e.tickReady(c))) {
 				return true
 			}
 		}
@@ -590,4 +593,25 @@ func (e *Engine) syncAcqRel(p *Value) {
 	t.vc.join(&s.svc)
 	s.svc.join(&t.vc)
 	t.vc[t.id]++
+}
+
+// settle lets every other thread run until it is blocked or finished (a
+// deterministic prefix: goroutines started by constructors reach their parking
+// point before the concurrent part of a harness begins).
+func (e *Engine) settle() {
+	if e.th == nil || !e.job.Threads {
+		return
+	}
+	me := e.th.cur
+	e.blockUntil("verifrt.Settle", func() bool {
+		for _, t := range e.th.all {
+			if t == me || t.done {
+				continue
+			}
+			if t.blocked == nil || t.blocked() {
+				return false
+			}
+		}
+		return true
+	})
 }
